@@ -33,3 +33,31 @@ Theorem C11_sudoku_exact : forall n clues st ans,
    <-> rules_sudoku (List.cons (List.cons (Z.of_nat n) nil) (List.cons clues nil)) ans = true).
 Proof. exact sudoku_exact. Qed.
 Print Assumptions C11_sudoku_exact.
+
+(* Tier 1, norinori, every board shape and region layout *)
+From Cspuz Require Import Puzzle.Rules_norinori Puzzle.Norinori Puzzle.NorinoriProofs.
+Theorem C11_norinori_exact : forall h w region st ans,
+  solve_norinori_model (List.cons (List.cons (Z.of_nat h) (List.cons (Z.of_nat w) nil)) (List.cons region nil)) = Ok st ->
+  ((exists en, model_of no_graph en st /\ reads st en (seq 0 (h * w)) = ans)
+   <-> rules_norinori (List.cons (List.cons (Z.of_nat h) (List.cons (Z.of_nat w) nil)) (List.cons region nil)) ans = true).
+Proof. exact norinori_exact. Qed.
+Print Assumptions C11_norinori_exact.
+
+(* Tier 1, putteria, every board shape and region layout *)
+From Cspuz Require Import Puzzle.Rules_putteria Puzzle.Putteria Puzzle.PutteriaProofs.
+Theorem C11_putteria_exact : forall h w region st ans,
+  solve_putteria_model (List.cons (List.cons (Z.of_nat h) (List.cons (Z.of_nat w) nil)) (List.cons region nil)) = Ok st ->
+  ((exists en, model_of no_graph en st /\ reads st en (seq 0 (h * w)) = ans)
+   <-> rules_putteria (List.cons (List.cons (Z.of_nat h) (List.cons (Z.of_nat w) nil)) (List.cons region nil)) ans = true).
+Proof. exact putteria_exact. Qed.
+Print Assumptions C11_putteria_exact.
+
+(* Tier 1, star battle, every n, k >= 0 and region layout *)
+From Cspuz Require Import Puzzle.Rules_star_battle Puzzle.StarBattle Puzzle.StarBattleProofs.
+Theorem C11_star_battle_exact : forall n k region st ans,
+  (0 <= k)%Z ->
+  solve_star_battle_model (List.cons (List.cons (Z.of_nat n) (List.cons k nil)) (List.cons region nil)) = Ok st ->
+  ((exists en, model_of no_graph en st /\ reads st en (seq 0 (n * n)) = ans)
+   <-> rules_star_battle (List.cons (List.cons (Z.of_nat n) (List.cons k nil)) (List.cons region nil)) ans = true).
+Proof. exact star_battle_exact. Qed.
+Print Assumptions C11_star_battle_exact.
